@@ -283,6 +283,14 @@ def extra_cases(rng, tier):
     for tag, a0, a1 in (("scalar start, array stop", 0.5, onp.array([1.0, 2.0])), ("array start, scalar stop", onp.array([1.0, 2.0, -1.0]), 3.0),
                         ("(2,1) start, (3,) stop", onp.array([[1.0], [2.0]]), onp.array([0.0, 1.0, 4.0])), ("0-d array start, array stop", onp.array(0.5), onp.array([1.0, 2.0]))):
         add("linspace", tag + ", 5 points", (lambda m, a, b: m.linspace(a, b, 5)), [a0, a1], [0, 1], True)
+    # ---- keepdims of linalg.norm (refused by the pinned tree; if it is accepted, both modes have to be right) ----
+    n34, n234 = R.distinct(rng, (3, 4)), R.distinct(rng, (2, 3, 4))
+    for kw in ({"keepdims": True}, {"ord": "fro", "keepdims": True}, {"ord": "nuc", "keepdims": True}, {"ord": 3, "axis": 1, "keepdims": True},
+               {"axis": 0, "keepdims": True}, {"ord": 2, "axis": -1, "keepdims": True}):
+        add("linalg.norm", "matrix %s" % kw, (lambda m, z, kw=kw: m.linalg.norm(z, **kw)), [n34], [0], False)
+    for kw in ({"ord": "nuc", "axis": (-2, -1), "keepdims": True}, {"axis": (0, 2), "keepdims": True}, {"ord": "fro", "axis": (1, 2), "keepdims": True}):
+        add("linalg.norm", "3-D %s" % kw, (lambda m, z, kw=kw: m.linalg.norm(z, **kw)), [n234], [0], False)
+    add("linalg.norm", "vector ord=3 keepdims", (lambda m, z: m.linalg.norm(z, 3, keepdims=True)), [R.distinct(rng, (4,))], [0], False)
     # ---- (0k) magnitudes at which squares overflow / underflow (the rules must not square what NumPy does not) ----
     big, small = onp.array([3.0e200, -1.0e180, 2.5e160]), onp.array([3.0e-200, -1.0e-180, 2.5e-170])
     for mag, pts in (("huge", big), ("tiny", small)):
